@@ -27,3 +27,13 @@ Definition render_check (c : rcase) : bool :=
       N.eqb (class_of o) (rc_class c) &&
       (N.eqb (rc_class c) 2 || list_same N.eqb (acc k) (encode (rc_accepted c)))
   end.
+
+(* C10: the same, with the accepted bytes compared as bytes (a budget may cut a character) *)
+Record kcase := mkK {
+  kc_tpl : template; kc_data : obj; kc_partials : list (str * option template);
+  kc_budget : nat; kc_class : N; kc_accepted : list N;
+}.
+Definition sink_check (c : kcase) : bool :=
+  match render_top no_oracle (store_of (kc_partials c)) 8 (kc_tpl c) (kc_data c) (mkSink [] (Some (kc_budget c))) with
+  | (o, _, k) => N.eqb (class_of o) (kc_class c) && list_same N.eqb (acc k) (kc_accepted c)
+  end.
